@@ -122,3 +122,612 @@ Proof.
     rewrite (nth_map0 Z.opp) by reflexivity. apply Z.opp_involutive.
   - apply map_ext. intros i. apply (nth_map0 Z.abs). reflexivity.
 Qed.
+
+(* ------------------------------------------------------------------------------------ *)
+(* strictly sorted integer lists                                                        *)
+(* ------------------------------------------------------------------------------------ *)
+
+Lemma SSorted_app : forall A B : list Z,
+  StronglySorted Z.lt (A ++ B) <->
+  StronglySorted Z.lt A /\ StronglySorted Z.lt B /\ (forall x y, In x A -> In y B -> x < y).
+Proof.
+  induction A as [|a A IH]; intros B; cbn [app].
+  - split.
+    + intros H. split; [constructor|]. split; [exact H|]. intros x y [].
+    + intros (_ & H & _). exact H.
+  - split.
+    + intros H. apply StronglySorted_inv in H. destruct H as [Hs Hf].
+      apply IH in Hs. destruct Hs as (HA & HB & Hx).
+      rewrite Forall_forall in Hf.
+      split.
+      * constructor; [exact HA|]. apply Forall_forall. intros y Hy. apply Hf.
+        apply in_or_app. left. exact Hy.
+      * split; [exact HB|]. intros x y [Hxa|Hxa] Hy.
+        -- subst x. apply Hf. apply in_or_app. right. exact Hy.
+        -- apply Hx; assumption.
+    + intros (HA & HB & Hx). apply StronglySorted_inv in HA. destruct HA as [HA Hf].
+      rewrite Forall_forall in Hf.
+      constructor.
+      * apply IH. split; [exact HA|]. split; [exact HB|].
+        intros x y Hx' Hy. apply Hx; [right; exact Hx'|exact Hy].
+      * apply Forall_forall. intros y Hy. apply in_app_or in Hy. destruct Hy as [Hy|Hy].
+        -- apply Hf. exact Hy.
+        -- apply Hx; [left; reflexivity|exact Hy].
+Qed.
+
+Lemma sorted_hd_le : forall L x d, StronglySorted Z.lt L -> In x L -> hd d L <= x.
+Proof.
+  intros L x d HL Hx. destruct L as [|a t]; [destruct Hx|].
+  cbn [hd]. apply StronglySorted_inv in HL. destruct HL as [_ Hf].
+  rewrite Forall_forall in Hf. destruct Hx as [<-|Hx]; [lia|].
+  specialize (Hf _ Hx). lia.
+Qed.
+
+Lemma last_cons_cons : forall (a b : Z) t d, last (a :: b :: t) d = last (b :: t) d.
+Proof. reflexivity. Qed.
+
+Lemma sorted_le_last_cons : forall t a x d,
+  StronglySorted Z.lt (a :: t) -> In x (a :: t) -> x <= last (a :: t) d.
+Proof.
+  induction t as [|b t IH]; intros a x d HL Hx.
+  - destruct Hx as [<-|[]]. cbn [last]. lia.
+  - rewrite last_cons_cons. apply StronglySorted_inv in HL. destruct HL as [Hs Hf].
+    destruct Hx as [<-|Hx].
+    + apply Forall_inv in Hf.
+      assert (H := IH b b d Hs (or_introl eq_refl)). lia.
+    + apply IH; assumption.
+Qed.
+
+Lemma sorted_le_last : forall L x d, StronglySorted Z.lt L -> In x L -> x <= last L d.
+Proof.
+  intros L x d HL Hx. destruct L as [|a t]; [destruct Hx|].
+  apply sorted_le_last_cons; assumption.
+Qed.
+
+Lemma sorted_prefix_gap : forall A c B d,
+  StronglySorted Z.lt (A ++ c :: B) -> hd d (A ++ c :: B) <= c - Z.of_nat (length A).
+Proof.
+  induction A as [|a A IH]; intros c B d H.
+  - cbn [app hd length]. lia.
+  - cbn [app] in H. apply StronglySorted_inv in H. destruct H as [Hs Hf].
+    specialize (IH c B d Hs).
+    assert (Hlt : a < hd d (A ++ c :: B)).
+    { destruct A as [|a' A]; cbn [app hd] in *; apply Forall_inv in Hf; exact Hf. }
+    cbn [app hd length]. lia.
+Qed.
+
+Lemma sorted_suffix_gap0 : forall B c d,
+  StronglySorted Z.lt (c :: B) -> c + Z.of_nat (length B) <= last (c :: B) d.
+Proof.
+  induction B as [|b B IH]; intros c d H.
+  - cbn [last length]. lia.
+  - rewrite last_cons_cons. apply StronglySorted_inv in H. destruct H as [Hs Hf].
+    apply Forall_inv in Hf. specialize (IH b d Hs). cbn [length]. lia.
+Qed.
+
+Lemma sorted_suffix_gap : forall A c B d,
+  StronglySorted Z.lt (A ++ c :: B) -> c + Z.of_nat (length B) <= last (A ++ c :: B) d.
+Proof.
+  induction A as [|a A IH]; intros c B d H.
+  - cbn [app]. apply sorted_suffix_gap0. exact H.
+  - cbn [app] in H. apply StronglySorted_inv in H. destruct H as [Hs _].
+    specialize (IH c B d Hs).
+    replace (last ((a :: A) ++ c :: B) d) with (last (A ++ c :: B) d); [exact IH|].
+    cbn [app]. destruct A; reflexivity.
+Qed.
+
+Lemma zmin_list_sorted : forall t a, Forall (Z.lt a) t -> zmin_list a t = a.
+Proof.
+  induction t as [|b t IH]; intros a H; cbn [zmin_list]; [reflexivity|].
+  assert (Hb := Forall_inv H). apply Forall_inv_tail in H. rewrite (IH a H). lia.
+Qed.
+
+Lemma sorted_list_min : forall L, StronglySorted Z.lt L -> list_min L = hd 0 L.
+Proof.
+  intros [|a t] H; [reflexivity|]. cbn [list_min hd].
+  apply StronglySorted_inv in H. destruct H as [_ Hf]. apply zmin_list_sorted. exact Hf.
+Qed.
+
+Lemma sorted_list_max : forall L, StronglySorted Z.lt L -> list_max L = last L 0.
+Proof.
+  intros [|a t] H; [reflexivity|]. cbn [list_max].
+  assert (Hin : In (zmax_list a t) (a :: t)).
+  { destruct (zmax_list_in a t) as [E|E]; [left; symmetry; exact E|right; exact E]. }
+  assert (H1 := sorted_le_last _ _ 0 H Hin).
+  assert (H2 : last (a :: t) 0 <= zmax_list a t).
+  { clear H Hin H1. revert a. induction t as [|b t IH]; intros a.
+    - cbn [last zmax_list]. lia.
+    - rewrite last_cons_cons. cbn [zmax_list].
+      destruct t as [|c t].
+      + cbn [last zmax_list]. lia.
+      + specialize (IH a). rewrite last_cons_cons in IH. rewrite last_cons_cons.
+        cbn [zmax_list] in IH. cbn [zmax_list]. lia. }
+  lia.
+Qed.
+
+Lemma sorted_nth_lt : forall L i j,
+  StronglySorted Z.lt L -> (i < j)%nat -> (j < length L)%nat -> nth i L 0 < nth j L 0.
+Proof.
+  induction L as [|a t IH]; intros i j H Hij Hj; [cbn [length] in Hj; lia|].
+  apply StronglySorted_inv in H. destruct H as [Hs Hf].
+  destruct j as [|j]; [lia|]. cbn [length] in Hj.
+  destruct i as [|i].
+  - cbn [nth]. rewrite Forall_forall in Hf. apply Hf. apply nth_In. lia.
+  - cbn [nth]. apply IH; [exact Hs|lia|lia].
+Qed.
+
+Lemma hd_nth0 : forall (L : list Z) d, hd d L = nth 0 L d.
+Proof. intros [|a t] d; reflexivity. Qed.
+
+Lemma last_nth : forall (L : list Z) d, last L d = nth (length L - 1) L d.
+Proof.
+  induction L as [|a t IH]; intros d; [reflexivity|].
+  destruct t as [|b t]; [reflexivity|].
+  rewrite last_cons_cons, IH. cbn [length]. 
+  replace (S (S (length t)) - 1)%nat with (S (S (length t) - 1)) by lia. reflexivity.
+Qed.
+
+Lemma map_seq_sorted : forall (g : nat -> Z) c s,
+  (forall i j, (s <= i)%nat -> (i < j)%nat -> (j < s + c)%nat -> g i < g j) ->
+  StronglySorted Z.lt (map g (seq s c)).
+Proof.
+  induction c as [|c IH]; intros s H; cbn [seq map]; [constructor|].
+  constructor.
+  - apply IH. intros i j H1 H2 H3. apply H; lia.
+  - apply Forall_forall. intros y Hy. apply in_map_iff in Hy. destruct Hy as (k & <- & Hk).
+    apply in_seq in Hk. apply H; lia.
+Qed.
+
+Lemma map_rev_seq_sorted : forall (g : nat -> Z) c s,
+  (forall i j, (s <= i)%nat -> (i < j)%nat -> (j < s + c)%nat -> g j < g i) ->
+  StronglySorted Z.lt (map g (rev (seq s c))).
+Proof.
+  induction c as [|c IH]; intros s H; [constructor|].
+  rewrite seq_S, rev_app_distr. cbn [rev app map].
+  constructor.
+  - apply IH. intros i j H1 H2 H3. apply H; lia.
+  - apply Forall_forall. intros y Hy. apply in_map_iff in Hy. destruct Hy as (k & <- & Hk).
+    apply in_rev in Hk. apply in_seq in Hk. apply H; lia.
+Qed.
+
+(* ------------------------------------------------------------------------------------ *)
+(* reflect_chunk / pad_reflect_odd                                                      *)
+(* ------------------------------------------------------------------------------------ *)
+
+Lemma nth_map_lt : forall (g : nat -> Z) l k d d0,
+  (k < length l)%nat -> nth k (map g l) d = g (nth k l d0).
+Proof.
+  intros g l k d d0 H. rewrite nth_indep with (d' := g d0) by (rewrite map_length; exact H).
+  apply map_nth.
+Qed.
+
+Lemma reflect_chunk_mirror : forall a c j,
+  (1 <= j <= c)%nat -> (c <= length a - 1)%nat ->
+  nth (c - j) (reflect_chunk a c) 0 = 2 * hd 0 a - nth j a 0 /\
+  nth (c + length a - 1 + j) (reflect_chunk a c) 0 = 2 * last a 0 - nth (length a - 1 - j) a 0.
+Proof.
+  intros a c j Hj Hc. unfold reflect_chunk. split.
+  - rewrite app_nth1 by (rewrite map_length, rev_length, seq_length; lia).
+    rewrite nth_map_lt with (d0 := 0%nat) by (rewrite rev_length, seq_length; lia).
+    rewrite rev_nth by (rewrite seq_length; lia).
+    rewrite seq_length. rewrite seq_nth by lia.
+    replace (1 + (c - S (c - j)))%nat with j by lia. reflexivity.
+  - rewrite app_nth2 by (rewrite map_length, rev_length, seq_length; lia).
+    rewrite map_length, rev_length, seq_length.
+    rewrite app_nth2 by lia.
+    replace (c + length a - 1 + j - c - length a)%nat with (j - 1)%nat by lia.
+    rewrite nth_map_lt with (d0 := 0%nat) by (rewrite seq_length; lia).
+    rewrite seq_nth by lia.
+    replace (1 + (j - 1))%nat with j by lia. reflexivity.
+Qed.
+
+Lemma reflect_chunk_sorted : forall a c,
+  StronglySorted Z.lt a -> (c <= length a - 1)%nat -> StronglySorted Z.lt (reflect_chunk a c).
+Proof.
+  intros a c Ha Hc. unfold reflect_chunk.
+  apply SSorted_app. split; [|split].
+  - apply map_rev_seq_sorted. intros i j H1 H2 H3.
+    assert (H := sorted_nth_lt a i j Ha H2 ltac:(lia)). lia.
+  - apply SSorted_app. split; [exact Ha|]. split.
+    + apply map_seq_sorted. intros i j H1 H2 H3.
+      assert (H := sorted_nth_lt a (length a - 1 - j) (length a - 1 - i) Ha ltac:(lia) ltac:(lia)). lia.
+    + intros x y Hx Hy. apply in_map_iff in Hy. destruct Hy as (k & <- & Hk). apply in_seq in Hk.
+      assert (H := sorted_le_last a x 0 Ha Hx).
+      assert (H' := sorted_nth_lt a (length a - 1 - k) (length a - 1) Ha ltac:(lia) ltac:(lia)).
+      rewrite <- last_nth in H'. lia.
+  - intros x y Hx Hy. apply in_map_iff in Hx. destruct Hx as (k & <- & Hk).
+    apply in_rev in Hk. apply in_seq in Hk.
+    assert (H' := sorted_nth_lt a 0 k Ha ltac:(lia) ltac:(lia)). rewrite <- hd_nth0 in H'.
+    apply in_app_or in Hy. destruct Hy as [Hy|Hy].
+    + assert (H := sorted_hd_le a y 0 Ha Hy). lia.
+    + apply in_map_iff in Hy. destruct Hy as (k' & <- & Hk'). apply in_seq in Hk'.
+      assert (H := sorted_nth_lt a (length a - 1 - k') (length a - 1) Ha ltac:(lia) ltac:(lia)).
+      rewrite <- last_nth in H.
+      assert (H0 : In (hd 0 a) a). { destruct a; [cbn [length] in Hc; lia|left; reflexivity]. }
+      assert (H1 := sorted_le_last a _ 0 Ha H0). lia.
+Qed.
+
+Lemma pad_reflect_odd_shape : forall fuel a p,
+  (p <= fuel)%nat -> (2 <= length a)%nat -> StronglySorted Z.lt a ->
+  exists Lp Rp, pad_reflect_odd fuel a p = Lp ++ a ++ Rp /\ length Lp = p /\ length Rp = p /\
+                StronglySorted Z.lt (Lp ++ a ++ Rp).
+Proof.
+  induction fuel as [|f IH]; intros a p Hp Hlen Ha.
+  - exists [], []. cbn [pad_reflect_odd app length]. rewrite app_nil_r.
+    repeat split; try lia. exact Ha.
+  - cbn [pad_reflect_odd]. destruct (Nat.eqb_spec p 0) as [E|E].
+    + exists [], []. cbn [app length]. rewrite app_nil_r. repeat split; try lia. exact Ha.
+    + destruct (Nat.leb_spec (length a) 1) as [E1|E1]; [lia|].
+      set (c := Nat.min p (length a - 1)).
+      assert (Hc1 : (1 <= c)%nat) by (unfold c; lia).
+      assert (Hc2 : (c <= length a - 1)%nat) by (unfold c; lia).
+      assert (Hc3 : (c <= p)%nat) by (unfold c; lia).
+      assert (Hs := reflect_chunk_sorted a c Ha Hc2).
+      assert (Hl : (2 <= length (reflect_chunk a c))%nat).
+      { unfold reflect_chunk. rewrite !app_length. lia. }
+      destruct (IH (reflect_chunk a c) (p - c)%nat ltac:(lia) Hl Hs) as (Lp & Rp & E2 & H1 & H2 & H3).
+      rewrite E2. unfold reflect_chunk in *.
+      set (L1 := map (fun k : nat => 2 * hd 0 a - nth k a 0) (rev (seq 1 c))) in *.
+      set (R1 := map (fun k : nat => 2 * last a 0 - nth (length a - 1 - k) a 0) (seq 1 c)) in *.
+      exists (Lp ++ L1), (R1 ++ Rp).
+      assert (EE : Lp ++ (L1 ++ a ++ R1) ++ Rp = (Lp ++ L1) ++ a ++ R1 ++ Rp).
+      { rewrite <- !app_assoc. reflexivity. }
+      rewrite <- EE. split; [reflexivity|].
+      rewrite !app_length. unfold L1, R1. rewrite !map_length, rev_length, !seq_length.
+      repeat split; try lia. exact H3.
+Qed.
+
+(* ------------------------------------------------------------------------------------ *)
+(* magnitudes: pad_edge                                                                 *)
+(* ------------------------------------------------------------------------------------ *)
+
+Lemma last_app_nonempty : forall (A B : list Z) d, B <> [] -> last (A ++ B) d = last B d.
+Proof.
+  induction A as [|a A IH]; intros B d HB; [reflexivity|].
+  cbn [app]. rewrite <- (IH B d HB).
+  destruct (A ++ B) eqn:E; [|reflexivity].
+  apply app_eq_nil in E. destruct E as [_ E]. contradiction.
+Qed.
+
+Lemma last_repeat : forall (l : Z) k d, last (repeat l (S k)) d = l.
+Proof.
+  intros l k d. induction k as [|k IH]; [reflexivity|].
+  change (repeat l (S (S k))) with (l :: l :: repeat l k). rewrite last_cons_cons. exact IH.
+Qed.
+
+Lemma hd_padded : forall (mags R : list Z) k,
+  mags <> [] -> hd 0 (repeat (hd 0 mags) k ++ mags ++ R) = hd 0 mags.
+Proof.
+  intros mags R k H. destruct k; [|reflexivity].
+  destruct mags; [contradiction|reflexivity].
+Qed.
+
+Lemma last_padded : forall (mags X : list Z) k,
+  mags <> [] -> last (X ++ mags ++ repeat (last mags 0) k) 0 = last mags 0.
+Proof.
+  intros mags X k H. destruct k as [|k].
+  - cbn [repeat]. rewrite app_nil_r. apply last_app_nonempty. exact H.
+  - rewrite app_assoc. rewrite last_app_nonempty by discriminate. apply last_repeat.
+Qed.
+
+(* ------------------------------------------------------------------------------------ *)
+(* the re-padding loop                                                                  *)
+(* ------------------------------------------------------------------------------------ *)
+
+Definition pinv (core mags L M : list Z) (k : nat) : Prop :=
+  exists Lp Rp, L = Lp ++ core ++ Rp /\ length Lp = k /\ length Rp = k /\
+    StronglySorted Z.lt L /\
+    M = repeat (hd 0 mags) k ++ mags ++ repeat (last mags 0) k.
+
+Lemma pinv_step : forall core mags L M k p,
+  (2 <= length core)%nat -> mags <> [] -> pinv core mags L M k ->
+  pinv core mags (pad_reflect_odd (S p) L p) (pad_edge M p) (p + k).
+Proof.
+  intros core mags L M k p Hc Hm (Lp & Rp & EL & H1 & H2 & Hs & EM).
+  assert (HlL : (2 <= length L)%nat). { rewrite EL, !app_length. lia. }
+  destruct (pad_reflect_odd_shape (S p) L p ltac:(lia) HlL Hs) as (Lp' & Rp' & E & H1' & H2' & Hs').
+  exists (Lp' ++ Lp), (Rp ++ Rp'). rewrite E.
+  split; [rewrite EL, <- !app_assoc; reflexivity|].
+  rewrite !app_length. split; [lia|]. split; [lia|]. split; [exact Hs'|].
+  unfold pad_edge. rewrite EM.
+  rewrite hd_padded by exact Hm. rewrite last_padded by exact Hm.
+  rewrite (repeat_app (hd 0 mags) p k).
+  replace (repeat (last mags 0) (p + k)) with (repeat (last mags 0) (k + p))
+    by (f_equal; lia).
+  rewrite (repeat_app (last mags 0) k p).
+  rewrite <- !app_assoc. reflexivity.
+Qed.
+
+Lemma pinv_bounds : forall core mags L M k N,
+  (2 <= length core)%nat -> (forall c, In c core -> 1 <= c <= N - 2) ->
+  pinv core mags L M k ->
+  list_min L <= N - 2 - Z.of_nat k /\ 1 + Z.of_nat k <= list_max L.
+Proof.
+  intros core mags L M k N Hc Hb (Lp & Rp & EL & H1 & H2 & Hs & _).
+  rewrite sorted_list_min, sorted_list_max by exact Hs.
+  destruct core as [|c rest]; [cbn [length] in Hc; lia|].
+  assert (Hcb := Hb c (or_introl eq_refl)).
+  subst L. cbn [app] in *.
+  assert (G1 := sorted_prefix_gap Lp c (rest ++ Rp) 0 Hs).
+  assert (G2 := sorted_suffix_gap Lp c (rest ++ Rp) 0 Hs).
+  rewrite app_length in G2. lia.
+Qed.
+
+Lemma pad_loop_inv : forall fuel N p core mags L M k,
+  (1 <= p)%nat -> (2 <= length core)%nat -> mags <> [] ->
+  (forall c, In c core -> 1 <= c <= N - 2) ->
+  pinv core mags L M k -> (1 <= fuel)%nat -> N + 1 <= Z.of_nat k + Z.of_nat fuel ->
+  exists L' M' k', pad_loop fuel N p L M = Padded L' M' /\ pinv core mags L' M' k' /\
+                   list_min L' < 0 /\ N <= list_max L'.
+Proof.
+  induction fuel as [|f IH]; intros N p core mags L M k Hp Hc Hm Hb Hinv Hf Hk; [lia|].
+  cbn [pad_loop].
+  destruct ((list_max L <? N) || (0 <=? list_min L)) eqn:E.
+  - assert (HkN : Z.of_nat k < N).
+    { destruct (pinv_bounds core mags L M k N Hc Hb Hinv) as [B1 B2].
+      apply orb_true_iff in E. destruct E as [E|E].
+      - apply Z.ltb_lt in E. lia.
+      - apply Z.leb_le in E. lia. }
+    apply (IH N p core mags _ _ (p + k)%nat); try assumption.
+    + apply pinv_step; assumption.
+    + lia.
+    + lia.
+  - exists L, M, k. split; [reflexivity|]. split; [exact Hinv|].
+    apply orb_false_iff in E. destruct E as [E1 E2].
+    apply Z.ltb_ge in E1. apply Z.leb_gt in E2. lia.
+Qed.
+
+(* ------------------------------------------------------------------------------------ *)
+(* get_padded_extrema                                                                   *)
+(* ------------------------------------------------------------------------------------ *)
+
+Lemma transform_length : forall m x, length (transform m x) = length x.
+Proof. intros [] x; cbn [transform]; [reflexivity|apply map_length|apply map_length]. Qed.
+
+Lemma extrema_locs_bounds : forall m x i,
+  In i (fst (extrema m x)) -> (1 <= i)%nat /\ (S i < length x)%nat.
+Proof.
+  intros m x i H. unfold extrema in H. cbn [fst] in H. apply find_maxima_spec in H.
+  destruct H as (Hi & a & b & c & _ & _ & H & _). split; [exact Hi|].
+  rewrite <- (transform_length m x). apply nth_error_Some. rewrite H. discriminate.
+Qed.
+
+Lemma extrema_locs_sorted : forall m x, StronglySorted lt (fst (extrema m x)).
+Proof. intros m x. unfold extrema. cbn [fst]. apply find_maxima_sorted. Qed.
+
+Lemma extrema_mags_length : forall m x, length (snd (extrema m x)) = length (fst (extrema m x)).
+Proof. intros m x. rewrite extrema_mags_spec. apply map_length. Qed.
+
+Lemma map_of_nat_sorted : forall l, StronglySorted lt l -> StronglySorted Z.lt (map Z.of_nat l).
+Proof.
+  induction l as [|a t IH]; intros H; cbn [map]; [constructor|].
+  apply StronglySorted_inv in H. destruct H as [Hs Hf]. constructor; [apply IH; exact Hs|].
+  rewrite Forall_forall in *. intros y Hy. apply in_map_iff in Hy. destruct Hy as (j & <- & Hj).
+  specialize (Hf _ Hj). lia.
+Qed.
+
+Lemma gpe_cases : forall x p m,
+  ((length (fst (extrema m x)) <= 1)%nat /\ get_padded_extrema x p m = NoExtrema) \/
+  ((2 <= length (fst (extrema m x)))%nat /\
+   exists L M k, get_padded_extrema x p m = Padded L M /\
+     pinv (map Z.of_nat (fst (extrema m x))) (snd (extrema m x)) L M k /\
+     ((1 <= p)%nat -> list_min L < 0 /\ Z.of_nat (length x) <= list_max L)).
+Proof.
+  intros x p m.
+  assert (Hb := extrema_locs_bounds m x).
+  assert (Hs := extrema_locs_sorted m x).
+  assert (Hl := extrema_mags_length m x).
+  unfold get_padded_extrema.
+  destruct (extrema m x) as [locs mags]. cbn [fst snd] in *.
+  destruct (Nat.leb_spec (length locs) 1) as [E|E]; [left; split; [exact E|reflexivity]|].
+  right. split; [lia|].
+  set (core := map Z.of_nat locs).
+  assert (Hcs : StronglySorted Z.lt core) by (apply map_of_nat_sorted; exact Hs).
+  assert (Hcl : (2 <= length core)%nat) by (unfold core; rewrite map_length; lia).
+  assert (Hm : mags <> []). { intros ->. cbn [length] in Hl. lia. }
+  assert (Hcb : forall c, In c core -> 1 <= c <= Z.of_nat (length x) - 2).
+  { intros c Hc. apply in_map_iff in Hc. destruct Hc as (i & <- & Hi). apply Hb in Hi. lia. }
+  assert (Hinv0 : pinv core mags core mags 0).
+  { exists [], []. cbn [app length repeat]. rewrite !app_nil_r. repeat split. exact Hcs. }
+  destruct (Nat.eqb_spec (Nat.min p (length locs)) 0) as [E0|E0].
+  - exists core, mags, 0%nat. split; [reflexivity|]. split; [exact Hinv0|]. intros Hp. lia.
+  - set (q := Nat.min p (length locs)) in *.
+    assert (Hinv1 := pinv_step core mags core mags 0 q Hcl Hm Hinv0).
+    destruct (pad_loop_inv (length x + 2) (Z.of_nat (length x)) q core mags _ _ (q + 0)%nat
+                ltac:(lia) Hcl Hm Hcb Hinv1 ltac:(lia) ltac:(lia))
+      as (L' & M' & k' & EL & Hinv' & Hmin & Hmax).
+    exists L', M', k'. split; [exact EL|]. split; [exact Hinv'|]. intros _. split; assumption.
+Qed.
+
+Lemma no_extrema_iff : forall x p m,
+  get_padded_extrema x p m = NoExtrema <-> (length (fst (extrema m x)) <= 1)%nat.
+Proof.
+  intros x p m. destruct (gpe_cases x p m) as [[H1 H2]|[H1 (L & M & k & H2 & _)]].
+  - split; intros _; assumption.
+  - rewrite H2. split; [discriminate|lia].
+Qed.
+
+Lemma pad_loop_terminates : forall x p m, get_padded_extrema x p m <> PadOutOfFuel.
+Proof.
+  intros x p m. destruct (gpe_cases x p m) as [[H1 H2]|[H1 (L & M & k & H2 & _)]];
+    rewrite H2; discriminate.
+Qed.
+
+Lemma pad_interior : forall x p m L M,
+  get_padded_extrema x p m = Padded L M ->
+  exists Lp Rp,
+    L = Lp ++ map Z.of_nat (fst (extrema m x)) ++ Rp /\ length Lp = length Rp /\
+    M = repeat (hd 0 (snd (extrema m x))) (length Lp) ++ snd (extrema m x)
+        ++ repeat (last (snd (extrema m x)) 0) (length Rp).
+Proof.
+  intros x p m L M H. destruct (gpe_cases x p m) as [[H1 H2]|[H1 (L' & M' & k & H2 & Hinv & _)]].
+  - rewrite H2 in H. discriminate.
+  - rewrite H2 in H. injection H as <- <-.
+    destruct Hinv as (Lp & Rp & EL & E1 & E2 & _ & EM).
+    exists Lp, Rp. rewrite E1, E2. split; [exact EL|]. split; [reflexivity|exact EM].
+Qed.
+
+Lemma pad_strict_sorted : forall x p m L M,
+  get_padded_extrema x p m = Padded L M -> StronglySorted Z.lt L.
+Proof.
+  intros x p m L M H. destruct (gpe_cases x p m) as [[H1 H2]|[H1 (L' & M' & k & H2 & Hinv & _)]].
+  - rewrite H2 in H. discriminate.
+  - rewrite H2 in H. injection H as <- <-.
+    destruct Hinv as (Lp & Rp & _ & _ & _ & Hs & _). exact Hs.
+Qed.
+
+Lemma pad_covers : forall x p m L M,
+  (1 <= p)%nat -> get_padded_extrema x p m = Padded L M ->
+  list_min L < 0 /\ Z.of_nat (length x) <= list_max L.
+Proof.
+  intros x p m L M Hp H. destruct (gpe_cases x p m) as [[H1 H2]|[H1 (L' & M' & k & H2 & _ & Hc)]].
+  - rewrite H2 in H. discriminate.
+  - rewrite H2 in H. injection H as <- <-. apply Hc. exact Hp.
+Qed.
+
+(* ------------------------------------------------------------------------------------ *)
+(* the sample grid                                                                      *)
+(* ------------------------------------------------------------------------------------ *)
+
+Lemma In_zrange : forall lo hi v, In v (zrange lo hi) <-> lo <= v < hi.
+Proof.
+  intros lo hi v. unfold zrange. rewrite in_map_iff. split.
+  - intros (k & <- & Hk). apply in_seq in Hk. lia.
+  - intros H. exists (Z.to_nat (v - lo)). split; [lia|]. apply in_seq. lia.
+Qed.
+
+Lemma map_seq_shift : forall n s d lo,
+  map (fun k => lo + Z.of_nat k) (seq (d + s) n) =
+  map (fun k => (lo + Z.of_nat d) + Z.of_nat k) (seq s n).
+Proof.
+  induction n as [|n IH]; intros s d lo; cbn [seq map]; [reflexivity|].
+  f_equal; [lia|]. rewrite <- IH. f_equal. f_equal. lia.
+Qed.
+
+Lemma zrange_split : forall lo mid hi, lo <= mid <= hi -> zrange lo hi = zrange lo mid ++ zrange mid hi.
+Proof.
+  intros lo mid hi H. unfold zrange.
+  replace (Z.to_nat (hi - lo)) with (Z.to_nat (mid - lo) + Z.to_nat (hi - mid))%nat by lia.
+  rewrite seq_app, map_app. f_equal.
+  cbn [Nat.add]. rewrite <- (Nat.add_0_r (Z.to_nat (mid - lo))).
+  rewrite map_seq_shift. replace (lo + Z.of_nat (Z.to_nat (mid - lo))) with mid by lia.
+  reflexivity.
+Qed.
+
+Lemma filter_none : forall (f : Z -> bool) l, (forall v, In v l -> f v = false) -> filter f l = [].
+Proof.
+  induction l as [|a t IH]; intros H; cbn [filter]; [reflexivity|].
+  rewrite (H a (or_introl eq_refl)). apply IH. intros v Hv. apply H. right. exact Hv.
+Qed.
+
+Lemma filter_all : forall (f : Z -> bool) l, (forall v, In v l -> f v = true) -> filter f l = l.
+Proof.
+  induction l as [|a t IH]; intros H; cbn [filter]; [reflexivity|].
+  rewrite (H a (or_introl eq_refl)). f_equal. apply IH. intros v Hv. apply H. right. exact Hv.
+Qed.
+
+Lemma filter_zrange : forall lo hi N, lo <= 0 -> N <= hi ->
+  filter (fun v => (0 <=? v) && (v <? N)) (zrange lo hi) = zrange 0 N.
+Proof.
+  intros lo hi N Hlo Hhi. destruct (Z_le_gt_dec N 0) as [HN|HN].
+  - unfold zrange at 2. replace (Z.to_nat (N - 0)) with 0%nat by lia. cbn [seq map].
+    apply filter_none. intros v Hv. apply andb_false_iff.
+    destruct (Z.leb_spec 0 v); [right; apply Z.ltb_ge; lia|left; reflexivity].
+  - rewrite (zrange_split lo 0 hi) by lia. rewrite (zrange_split 0 N hi) by lia.
+    rewrite !filter_app.
+    rewrite (filter_none _ (zrange lo 0)), (filter_all _ (zrange 0 N)), (filter_none _ (zrange N hi)).
+    + rewrite app_nil_r. reflexivity.
+    + intros v Hv. apply In_zrange in Hv. apply andb_false_iff. right. apply Z.ltb_ge. lia.
+    + intros v Hv. apply In_zrange in Hv. apply andb_true_iff. split; [apply Z.leb_le|apply Z.ltb_lt]; lia.
+    + intros v Hv. apply In_zrange in Hv. apply andb_false_iff. left. apply Z.leb_gt. lia.
+Qed.
+
+Lemma zrange_length : forall N, 0 <= N -> Z.of_nat (length (zrange 0 N)) = N.
+Proof. intros N H. unfold zrange. rewrite map_length, seq_length. lia. Qed.
+
+Lemma envelope_on_sample_grid : forall x p m L M,
+  (1 <= p)%nat -> get_padded_extrema x p m = Padded L M ->
+  env_grid L (Z.of_nat (length x)) = Some (zrange 0 (Z.of_nat (length x))).
+Proof.
+  intros x p m L M Hp H.
+  assert (Hs := pad_strict_sorted x p m L M H).
+  destruct (pad_covers x p m L M Hp H) as [Hmin Hmax].
+  rewrite sorted_list_min in Hmin by exact Hs. rewrite sorted_list_max in Hmax by exact Hs.
+  unfold env_grid. rewrite filter_zrange by lia.
+  rewrite zrange_length by lia. rewrite Z.eqb_refl. reflexivity.
+Qed.
+
+Lemma env_grid_q_spec : forall (first last_ : Q) N,
+  (first < 0)%Q -> (inject_Z N <= last_)%Q -> env_grid_q first last_ N = zrange 0 N.
+Proof.
+  intros first last_ N H1 H2. unfold env_grid_q. apply filter_zrange.
+  - unfold qceil.
+    assert (H : (0 <= - first)%Q) by lra.
+    apply Qfloor_resp_le in H. change (Qfloor 0) with 0 in H. lia.
+  - unfold qceil.
+    assert (H : (- last_ <= inject_Z (- N))%Q).
+    { rewrite inject_Z_opp. lra. }
+    apply Qfloor_resp_le in H. rewrite Qfloor_Z in H. lia.
+Qed.
+
+(* ------------------------------------------------------------------------------------ *)
+(* parabolic refinement                                                                 *)
+(* ------------------------------------------------------------------------------------ *)
+
+Lemma Qsq_nonneg : forall q : Q, (0 <= q * q)%Q.
+Proof.
+  intros q. destruct (Qlt_le_dec q 0) as [H|H].
+  - setoid_replace (q * q)%Q with ((- q) * (- q))%Q by ring.
+    apply Qmult_le_0_compat; lra.
+  - apply Qmult_le_0_compat; exact H.
+Qed.
+
+Lemma parabolic_vertex_close : forall y0 y1 y2 loc : Q,
+  (y0 < y1)%Q -> (y2 < y1)%Q ->
+  (loc - (1#2) < fst (parabolic_vertex y0 y1 y2 loc) < loc + (1#2))%Q /\
+  (y1 <= snd (parabolic_vertex y0 y1 y2 loc))%Q.
+Proof.
+  intros y0 y1 y2 loc H0 H2. unfold parabolic_vertex. cbn [fst snd].
+  set (D := (2 * y1 - y0 - y2)%Q).
+  assert (HD : (0 < D)%Q) by (unfold D; lra).
+  set (b := (- (5 # 2) * y0 + 4 * y1 - (3 # 2) * y2)%Q).
+  assert (E : (- b / (2 * ((1 # 2) * y0 - y1 + (1 # 2) * y2)) == b / D)%Q).
+  { unfold D. field. split; lra. }
+  rewrite E.
+  assert (L1 : ((3#2) < b / D)%Q).
+  { apply Qlt_shift_div_l; [exact HD|]. unfold b, D. lra. }
+  assert (L2 : (b / D < (5#2))%Q).
+  { apply Qlt_shift_div_r; [exact HD|]. unfold b, D. lra. }
+  split; [split; lra|].
+  assert (E2 : (b / D * b / 2 == (b * b) / (2 * D))%Q).
+  { field. lra. }
+  rewrite E2.
+  assert (L3 : (y1 - (3 * y0 - 3 * y1 + y2) <= (b * b) / (2 * D))%Q).
+  { apply Qle_shift_div_l; [lra|].
+    assert (S := Qsq_nonneg ((y2 - y0) / 2)).
+    assert (E3 : (b * b - (y1 - (3 * y0 - 3 * y1 + y2)) * (2 * D)
+                  == (y2 - y0) / 2 * ((y2 - y0) / 2))%Q).
+    { unfold b, D. field. }
+    lra. }
+  lra.
+Qed.
+
+(* ------------------------------------------------------------------------------------ *)
+(* the grid before the repair, and non-vacuity of the premises                          *)
+(* ------------------------------------------------------------------------------------ *)
+
+Lemma env_grid_v0_refuted : exists (first last_ : Q) N v,
+  (first < 0)%Q /\ (inject_Z N <= last_)%Q /\
+  In v (env_grid_q_v0 first last_ N) /\ Qden (Qred v) <> 1%positive.
+Proof.
+  exists (-1 # 2)%Q, 2%Q, 2, (1 # 2)%Q.
+  split; [reflexivity|]. split; [discriminate|].
+  split; [vm_compute; left; reflexivity|]. vm_compute. discriminate.
+Qed.
+
+Lemma c05_premises_hold :
+  get_padded_extrema [0; 1; 0; 1; 0; 2; 0; 0; 1; 0] 2 Peaks
+  = Padded [-3; -1; 1; 3; 5; 8; 11; 13] [1; 1; 1; 1; 2; 1; 1; 1] /\
+  get_padded_extrema [0; 1; 0; 1; 0; 2; 0; 0; 1; 0] 2 Troughs
+  = Padded [-6; -4; -2; 0; 2; 4; 6; 8; 10; 12] [0; 0; 0; 0; 0; 0; 0; 0; 0; 0].
+Proof. split; vm_compute; reflexivity. Qed.
